@@ -156,17 +156,23 @@ def _random_boundary_points_if_n_eq_1(main_domain, domain_a, domain_b, params, d
     final_points = torch.zeros((num_of_params, main_domain.dim + 1), device=device)
     found_valid = torch.zeros((num_of_params, 1), dtype=bool, device=device)
     boundaries = [domain_a.boundary, domain_b.boundary]
-    use_b = False
+    # every proposal lies on the boundary of a or of b, chosen (for every row of the
+    # parameters) in proportion to the size of the two boundaries
+    a_volume = boundaries[0].volume(params=params, device=device)
+    b_volume = boundaries[1].volume(params=params, device=device)
+    ratio_b = (b_volume / (a_volume + b_volume)).reshape(-1, 1)
     while not all(found_valid):
-        new_points = boundaries[use_b].sample_random_uniform(
-            n=1, params=params, device=device
+        points_a = boundaries[0].sample_random_uniform(n=1, params=params, device=device)
+        points_b = boundaries[1].sample_random_uniform(n=1, params=params, device=device)
+        use_b = torch.rand((num_of_params, 1), device=device) < ratio_b
+        new_points = Points(
+            torch.where(use_b, points_b.as_tensor, points_a.as_tensor), points_a.space
         )
         index_valid = main_domain._contains(new_points, params)
         index_valid = torch.logical_and(index_valid, torch.logical_not(found_valid))
         index_valid = torch.where(index_valid)[0]
         found_valid[index_valid] = True
         final_points[index_valid] = new_points.as_tensor[index_valid]
-        use_b = not use_b
     return Points(final_points, main_domain.space)
 
 
@@ -182,20 +188,25 @@ def _random_points_boundary(main_domain, domain_a, domain_b, n, params, device):
     for i in range(num_of_params):
         ith_params = params[i,] if len(params) > 0 else Points.empty()
         ith_points = Points.empty()
-        # scale n such that the number of points corresponds to the size
-        # of the boundary
-        sclaed_n = _compute_boundary_ratio(
+        # the share of the proposals on the boundary of b corresponds to the size
+        # of the boundaries
+        ratio_b = _compute_boundary_ratio(
             main_domain, domain_a, domain_b, ith_params, n, device=device
         )
-        use_b = False  # to switch between sampling on a and b
         while len(ith_points) < n:
-            new_points = domains[use_b].boundary.sample_random_uniform(
-                n=sclaed_n[use_b], params=ith_params, device=device
-            )
+            # both boundaries get their (random) share of every batch of proposals and
+            # the batch is shuffled, so that the cut to n points prefers no domain
+            n_b = int(torch.binomial(torch.tensor(float(n)), torch.tensor(ratio_b)))
+            new_points = Points.empty()
+            for domain, m in zip(domains, [n - n_b, n_b]):
+                if m > 0:
+                    new_points = new_points | domain.boundary.sample_random_uniform(
+                        n=m, params=ith_params, device=device
+                    )
+            new_points = new_points[torch.randperm(len(new_points), device=device),]
             _, repeat_params = main_domain._repeat_params(len(new_points), ith_params)
             index_valid = torch.where(main_domain._contains(new_points, repeat_params))
             ith_points = ith_points | new_points[index_valid[0],]
-            use_b = not use_b  # switch to other domain
         random_points = random_points | ith_points[:n,]
     return random_points
 
@@ -203,10 +214,10 @@ def _random_points_boundary(main_domain, domain_a, domain_b, n, params, device):
 def _compute_boundary_ratio(
     main_domain, domain_a, domain_b, ith_params, n, device="cpu"
 ):
-    main_volume = main_domain.volume(params=ith_params, device=device)
+    # share of the boundary of b in the boundaries of both domains
     a_volume = domain_a.boundary.volume(params=ith_params, device=device)
     b_volume = domain_b.boundary.volume(params=ith_params, device=device)
-    return [int(n * a_volume / main_volume) + 1, int(n * b_volume / main_volume) + 1]
+    return float(b_volume / (a_volume + b_volume))
 
 
 def _boundary_grid_with_n(main_domain, domain_a, domain_b, n, params, device):
